@@ -256,6 +256,11 @@ def search_calls(rng):
             rec["seqs2"] = {"t": "alias", "of": "seqs"}
         if rng.random() < 0.2:
             rec["seqs"] = seq(rec["seqs"]["items"], "Series", rng.sample(range(3, 3 + n), n))
+        if rng.random() < 0.08:
+            # an invalid collection mixing strings with numbers (must be rejected, whatever the container)
+            bad = list(rec["seqs"]["items"]) + [rng.choice([I(123), R(1.5)])]
+            rng.shuffle(bad)
+            rec["seqs"] = seq(bad, rng.choice(["list", "tuple"]))
         yield rec
 
 
@@ -509,4 +514,47 @@ def mle_calls(rng):
         if rng.random() < 0.3:
             lo = rng.choice([1.1, 1.5, 2.0])
             rec["kwargs"] = {"t": "dict", "items": {"bounds": tup(R(lo), R(lo + rng.choice([0.5, 2.0, 3.0])))}}
+        yield rec
+
+
+def _tab(cols, none_for_empty=True):
+    return {"t": "table", "columns": cols, "none_for_empty": none_for_empty}
+
+
+@scope("multimerge_calls")
+def multimerge_calls(rng):
+    while True:
+        k = rng.randint(2, 4)
+        tabs = []
+        for t in range(k):
+            keys = rng.sample(["a", "b", "c", "d", "e"], rng.randint(1, 4))
+            tabs.append(_tab({"key": keys, f"val{t}" if rng.random() < 0.5 else "val": [f"{x}{t}" for x in keys]}, False))
+        rec = {"dfs": seq(tabs, "list"), "on": {"t": "const", "v": rng.choice(["key", "index", "key"])},
+               "suffixes": rng.choice([NONE, seq([S(f"s{t}") for t in range(k)], "list")]),
+               "kwargs": {"t": "dict", "items": ({} if rng.random() < 0.6 else {"how": {"t": "const", "v": rng.choice(["inner", "outer", "left"])}})}}
+        yield rec
+
+
+@scope("standardize_calls")
+def standardize_calls(rng):
+    genes = ["TRBV13*01", "bv13*1", "TCRBV28S1*01", "unknown", "", "TRAV1-1", "av26.1*1", "TRBJ2-4*01", "aj43*1", "junk!"]
+    cdr3 = ["CASSYLPGQGDHYSNQPQHF", "ASSF", "", "CASS", "notacdr3", "CAVPSGAGSYQLTF"]
+    epi = ["FLKEKGGL", "", "not an epitope 1", "YMPYFFTLL"]
+    mhc = ["HLA-A*02", "b8", "", "B2M", "HLA-DQA1*05", "junk"]
+    pool = {"TRAV": genes, "TRAJ": genes, "TRBV": genes, "TRBJ": genes, "v": genes, "CDR3A": cdr3, "CDR3B": cdr3, "cdr3": cdr3,
+            "Epitope": epi, "epi": epi, "MHCA": mhc, "MHCB": mhc, "extra": ["x", "", "TRBV13"], "note": ["n1", ""], "x": ["1", "2"]}
+    layouts = [["TRAV", "CDR3A", "TRAJ", "extra", "TRBV", "CDR3B", "TRBJ", "Epitope", "MHCA", "MHCB"], ["v", "cdr3", "TRBJ", "note", "epi"],
+               ["CDR3A", "Epitope", "MHCA"]]
+    B = lambda v: {"t": "const", "v": v}
+    while True:
+        n = rng.randint(0, 4)
+        lay = rng.choice(layouts)
+        rec = {"df": _tab({c: [rng.choice(pool[c]) for _ in range(n)] for c in lay}),
+               "col_mapper": rng.choice([NONE, {"t": "dict", "items": {"v": B("TRBV"), "cdr3": B("CDR3B"), "epi": B("Epitope")}}]),
+               "standardize": B(rng.random() < 0.8), "species": B(rng.choice(["HomoSapiens", "MusMusculus"])),
+               "tcr_enforce_functional": B(rng.random() < 0.5), "tcr_precision": B(rng.choice(["gene", "allele"])),
+               "mhc_precision": B(rng.choice(["gene", "allele", "protein"])), "strict_cdr3_standardization": B(rng.random() < 0.5),
+               "suppress_warnings": B(True), "df_old": NONE}
+        if rng.random() < 0.1:
+            rec["df_old"], rec["df"] = _tab({"CDR3B": [rng.choice(cdr3) for _ in range(n)], "x": ["1"] * n}), rng.choice([NONE, rec["df"]])
         yield rec
